@@ -28,11 +28,38 @@ type vFaultReader struct {
 	chunks   []int // cyclic chunk sizes
 	ci       int
 	withLast bool // return the error together with the last chunk
+	once     bool // the read at failAt fails exactly once, later reads continue with the remaining data
+	failed   bool
 }
 
 func (r *vFaultReader) Read(p []byte) (int, error) {
 	if len(p) == 0 {
 		return 0, nil
+	}
+	if r.once {
+		if !r.failed && r.pos >= r.failAt {
+			r.failed = true
+			return 0, r.err
+		}
+		if r.pos >= len(r.data) {
+			return 0, io.EOF
+		}
+		n := len(p)
+		if len(r.chunks) > 0 {
+			if c := r.chunks[r.ci%len(r.chunks)]; c < n {
+				n = c
+			}
+			r.ci++
+		}
+		if !r.failed && n > r.failAt-r.pos {
+			n = r.failAt - r.pos
+		}
+		if n > len(r.data)-r.pos {
+			n = len(r.data) - r.pos
+		}
+		copy(p, r.data[r.pos:r.pos+n])
+		r.pos += n
+		return n, nil
 	}
 	limit := len(r.data)
 	if r.failAt < limit {
@@ -96,6 +123,15 @@ func checkC10Parser(c c10ParserCase, ctx *vCtx) *vFailure {
 			if err == nil {
 				return vFailSig("C10/parser/read-error-ignored", "the reader fails with %q at byte offset %d of %d (error delivered %s), but parsing reports success after %d of %d records — a silently shortened result.\nfile: %q", c10Errors[c.Err], k, len(text), map[bool]string{false: "alone", true: "together with the last bytes"}[withLast], len(recs), len(want), vTrunc(string(text), 600))
 			}
+		}
+	}
+	// a read that fails once and then continues (or ends) is still a failed read
+	for k := 0; k <= len(text); k++ {
+		fr := &vFaultReader{data: text, failAt: k, err: c10Errors[c.Err], chunks: c.Chunks, once: true}
+		recs, err := parse(fr)
+		ctx.Run(1)
+		if err == nil {
+			return vFailSig("C10/parser/transient-read-error-ignored", "one read fails with %q at byte offset %d of %d and the following reads succeed, but parsing reports success (%d of %d records).\nfile: %q", c10Errors[c.Err], k, len(text), len(recs), len(want), vTrunc(string(text), 600))
 		}
 	}
 	// control: a healthy reader with the same chunking succeeds and accounts for everything
@@ -443,6 +479,32 @@ func checkC10CLI(c c10CLICase, ctx *vCtx) *vFailure {
 	if c.Shape == "big-file" || c.Shape == "big-file-bad-tail" || c.Shape == "fifo" {
 		return c10Special(c, ctx, onLog)
 	}
+	if c.Shape == "same-file" {
+		// one file that is both a valid recipe book and a valid log, named by -d and -l with the same string:
+		// the report must be the one obtained from two separate copies
+		text := "2021/01/01:\n  meal: 2\n  x: 1\n2021/01/02:\n  2021/01/01: 1\n  y: 3\nmeal:\n  x: 5\n"
+		both := vWriteFile("c10-both.yaml", text)
+		cp1, cp2 := vWriteFile("c10-copy1.yaml", text), vWriteFile("c10-copy2.yaml", text)
+		mk2 := func(lp, bp string) []string {
+			args := make([]string, len(cmd.args))
+			for i, a := range cmd.args {
+				args[i] = strings.ReplaceAll(strings.ReplaceAll(a, "@LOG@", lp), "@BOOK@", bp)
+			}
+			return append([]string{"--today", vToday, "--date-format", "2006/01/02", "-d", bp, "-l", lp}, args...)
+		}
+		ref := vRunBin(vInvocation{Args: mk2(cp1, cp2)}, 30*time.Second)
+		got := vRunBin(vInvocation{Args: mk2(both, both)}, 30*time.Second)
+		ctx.Run(2)
+		ctx.Label("shape:same-file")
+		ctx.NonTrivial(true)
+		if cmd.args[0] == "stats" || cmd.args[0] == "lint" {
+			return nil
+		}
+		if got.Failed != ref.Failed || got.Stdout != ref.Stdout {
+			return vFailSig("C10/cli/same-file", "%v with the same path for -d and -l: failed=%v\n%s\nbut with two copies of that file: failed=%v\n%s", cmd.args, got.Failed, vTrunc(got.Stdout, 600), ref.Failed, vTrunc(ref.Stdout, 600))
+		}
+		return nil
+	}
 	logText := c10LongFile(true, "", 0, "")
 	bookText := c10LongFile(false, "", 0, "")
 	dir := filepath.Join(vScratchDir(), "c10-dir")
@@ -559,6 +621,9 @@ func c10CLISpace() []c10CLICase {
 			out = append(out, c10CLICase{Cmd: ci, OnLog: onLog, Shape: "dir"})
 			out = append(out, c10CLICase{Cmd: ci, OnLog: onLog, Shape: "dir-proc", Bin: ci%2 == 0})
 			out = append(out, c10CLICase{Cmd: ci, OnLog: onLog, Shape: "fifo"})
+			if onLog && cm.book {
+				out = append(out, c10CLICase{Cmd: ci, OnLog: onLog, Shape: "same-file"})
+			}
 			for _, sz := range []int{1<<20 + 300000, 5 << 20} {
 				if !vThorough() && (sz > 2<<20 || ci%3 != 0) { // quick: 1.3 MB for every third command
 					continue
@@ -611,7 +676,7 @@ func init() {
 
 func TestVerifC10Parser(t *testing.T) {
 	vRapid(t, "C10", "c10.parser",
-		"generated well-formed files (1-5 records quick / 1-12 thorough, wild names, every layout, comments, notes); for EVERY byte offset k in [0,len] the reader starts failing at k (error alone, or together with the last chunk; scanner-sized, one-byte or drawn chunking; 9 error values incl. wrapped os.ErrClosed and wrapped io.EOF): ParseStreamCallback must return an error; control with a healthy reader of the same chunking must deliver exactly the AST; non-trivial = file with >=2 records (a plausible shortened result exists); evaluations count files, program_runs count (file, offset, mode) parses",
+		"generated well-formed files (1-5 records quick / 1-12 thorough, wild names, every layout, comments, notes); for EVERY byte offset k in [0,len] the reader starts failing at k (error alone, or together with the last chunk, or a single failed read after which reading continues; scanner-sized, one-byte or drawn chunking; 9 error values incl. wrapped os.ErrClosed and wrapped io.EOF): ParseStreamCallback must return an error; control with a healthy reader of the same chunking must deliver exactly the AST; non-trivial = file with >=2 records (a plausible shortened result exists); evaluations count files, program_runs count (file, offset, mode) parses",
 		vBudget(2400, 24000), genC10Parser, checkC10Parser)
 }
 
